@@ -145,6 +145,11 @@ def check(case, ev):
         return
     build.clear_caches()
     c = _obtain(c, spec, case.get("via", 0), ev)
+    if case.get("via", 0) and call(c.errors, what="errors()"):
+        # e.g. add() keeps the GENERATED id of a one-rule configurator, which is also the generated id of the complement
+        # group Any(R1) inside the added rule: the grown configurator is ill-defined (validation says so) - not C14's subject
+        ev.count("discarded_invalid_after_load_or_add")
+        return
     poly = call(lambda: c.ge_polyhedron, what="ge_polyhedron")
     cols = list(poly.variables[1:])
     ids = [v.id for v in cols]
